@@ -4,6 +4,7 @@
 // The per-connection handler of the real HttpServer is driven on one end of a socketpair (through the public virtual of
 // the base class) in a harness thread; the other end is a hostile raw client.
 #include "common/runner.h"
+#include <set>
 #include <asl/HttpServer.h>
 #include <asl/Http.h>
 #include <asl/File.h>
@@ -31,6 +32,8 @@ struct Expect
 	std::map<std::string, std::string> query;                          // decoded key -> value
 	std::vector<std::pair<std::string, std::string> > headers;          // lookup name (some case) -> value
 	std::vector<std::string> absent;                                    // names that were never sent as headers (they occur inside a folded value)
+	bool fragment;                                                      // the target carried a '#fragment'
+	Expect() : fragment(false) {}
 };
 
 static std::mutex g_mu;
@@ -208,6 +211,12 @@ static std::string genRequest(vf::Rng& r, Expect& e, bool last, std::vector<std:
 			e.query[kr] = vr;
 		}
 	}
+	// a fragment after the target (some clients send one): nothing of it is path or query, even when it contains '?', '=' or '&'
+	if (r.chance(0.08)) {
+		static const char* frs[] = {"#frag", "#", "#a?z=9", "#?k0=other", "#x&w=1", "#a=b", "#%23"};
+		target += frs[r.below(7)];
+		e.fragment = true;
+	}
 	bool http10 = r.chance(0.05) && last;
 	std::string req = e.method + " " + target + (http10 ? " HTTP/1.0\r\n" : " HTTP/1.1\r\n");
 	// headers
@@ -262,7 +271,7 @@ static std::string genRequest(vf::Rng& r, Expect& e, bool last, std::vector<std:
 		req += "\r\n";
 		size_t off = 0;
 		while (off < e.body.size()) {
-			size_t n = std::min(e.body.size() - off, (size_t)(r.chance(0.3) ? r.range(1, 20) : r.range(1, 20000)));
+			size_t n = std::min(e.body.size() - off, (size_t)(r.chance(0.6) ? r.range(1, 20) : r.range(1, 20000)));   // mostly several chunks per body: a stream cut between two chunks has delivered a prefix of the body
 			req += vf::fmt(r.chance(0.5) ? "%x\r\n" : "%X\r\n", (unsigned)n) + e.body.substr(off, n) + "\r\n";
 			off += n;
 		}
@@ -288,6 +297,7 @@ static void compareSeen(vf::Ctx& c, const std::vector<Expect>& exp, const std::s
 			if (it->second != kv.second) c.fail("wellformed.query-value", at + kv.first + "='" + vf::vis(it->second) + "' vs '" + vf::vis(kv.second) + "'");
 		}
 		if (s.query.size() != e.query.size()) c.fail("wellformed.query-count", at + vf::fmt("%d vs %d", (int)s.query.size(), (int)e.query.size()));
+		if (e.fragment) c.count("wellformed.targets-with-a-fragment");
 		for (auto& h : e.headers) {
 			auto it = s.headers.find(h.first);
 			if (it == s.headers.end()) c.fail("wellformed.header-missing", at + "header(" + h.first + ")");
@@ -347,7 +357,21 @@ static void mode_cuts(vf::Ctx& c)
 	if (stream.size() > 1500) stream.resize(1500);
 	size_t step = stream.size() > 400 ? 1 + stream.size() / 300 : 1;
 	long ncuts = 0;
-	for (size_t cut = 0; cut <= stream.size(); cut += step) {
+	// every step-th offset, plus every offset next to a line end (the framing of headers, chunk-size lines and chunk data hangs on them)
+	std::vector<size_t> cutsAt;
+	{
+		std::set<size_t> cs;
+		for (size_t cut = 0; cut <= stream.size(); cut += step) cs.insert(cut);
+		if (step > 1) {
+			size_t extra = 0;
+			for (size_t p2 = stream.find("\r\n"); p2 != std::string::npos && extra < 240; p2 = stream.find("\r\n", p2 + 1))
+				for (size_t d = 0; d <= 3; d++) if (p2 + d <= stream.size() && cs.insert(p2 + d).second) extra++;
+			cs.insert(stream.size());
+		}
+		cutsAt.assign(cs.begin(), cs.end());
+	}
+	for (size_t ci = 0; ci < cutsAt.size(); ci++) {
+		size_t cut = cutsAt[ci];
 		{ std::lock_guard<std::mutex> l(g_mu); g_seen.clear(); g_lookups = lookups; }
 		std::string part = stream.substr(0, cut);
 		c.desc(vf::fmt("stream cut at %d of %d then closed: ", (int)cut, (int)stream.size()) + vf::vis(part.size() > 300 ? part.substr(part.size() - 300) : part, 400));
